@@ -526,6 +526,9 @@ def record_ok(kind, x, value, precision, eps, col):
     raise KeyError(kind)
 
 
+FUZZ_EPS = 0.25
+
+
 def violated_constraints(col):
     """(kind, dict-form value, value, precision) candidates that at least one record violates."""
     out = []
@@ -541,6 +544,16 @@ def violated_constraints(col):
                 out.append(('max', v, b, prec))
         for s in ('positive', 'non-negative', 'zero', 'non-positive', 'negative'):
             out.append(('sign', s, s, None))
+        # bounds that put a value inside the fuzzy tolerance band (epsilon = FUZZ_EPS),
+        # on either side, for positive and negative bounds
+        for x in sorted(set(xs)):
+            if x == 0:
+                continue
+            for b in (x / (1 - FUZZ_EPS / 2), x / (1 + FUZZ_EPS / 2)):
+                for prec in (None, 'fuzzy'):
+                    v = {'value': b, 'precision': prec} if prec else b
+                    out.append(('min', v, b, prec))
+                    out.append(('max', v, b, prec))
     if col.ttype == 'date' and nn:
         xs = sorted(_naive(x) for x in nn)
         one = datetime.timedelta(seconds=1)
@@ -613,13 +626,13 @@ def check_detection(b, family, values, df, col, w, tmpdir, rnd):
         b.case(('detect', family, values, json.dumps(fieldc, default=repr, sort_keys=True)))
         df_v = df.copy()
         with quiet():
-            okv, v = b.guarded('C06.verify_df.noraise', lambda: verify_df(df_v, cons), w1)
+            okv, v = b.guarded('C06.verify_df.noraise', lambda: verify_df(df_v, cons, epsilon=FUZZ_EPS), w1)
         df_in = df.copy()
         before = df_in.copy()
         with quiet():
             okd, dres = b.guarded('C06.detect_df.noraise',
                                   lambda: detect_df(df_in, cons, per_constraint=True, write_all=True,
-                                                    output_fields=[]), w1)
+                                                    output_fields=[], epsilon=FUZZ_EPS), w1)
         if not (okv and okd):
             continue
         b.check('C06.verdicts-equal-verify', dict(v.fields['c']) == dict(dres.fields['c'])
@@ -673,7 +686,10 @@ def check_detection(b, family, values, df, col, w, tmpdir, rnd):
                         continue        # FP-REAL: non-finite bound, not judged
                     try:
                         x = _naive(cell) if (col.ttype == 'date' and kind != 'no_duplicates') else cell
-                        want_false = not record_ok(kind, x, val, SPEC['eff_precision'](prec) if kind in ('min', 'max') else prec, 0, col)
+                        want_false = not record_ok(kind, exact(x) if isinstance(x, float) else x,
+                                                   exact(val) if isinstance(val, float) else val,
+                                                   SPEC['eff_precision'](prec) if kind in ('min', 'max') else prec,
+                                                   exact(FUZZ_EPS), col)
                     except TypeError:
                         continue
                 else:
